@@ -159,3 +159,115 @@ package dns
 //@   at call DeepCloneRules#1 assert a0 == rules && len(optimizers) == 0
 //@   at call SplitRequestRules#1 assert a0 == normalizedRules && calls("ApplyRulesOptimizers") + calls("DeepCloneRules") == 1
 //@   at return 3 assert result0.Rules == dnsRules && result0.Fallback == fallback && result1 == nil
+
+// qtype condition: one slot per value, in order; all but the last chained by OR, the last one carries the
+// rule's upstream; every slot keeps the condition's negation.
+//@ func (*RequestMatcherBuilder).addQType
+//@   requires b != nil && f != nil && upstream != nil
+//@   anchorsonly
+//@   dyncalls noeffect
+//@   modifies *
+//@   at call upstreamToId#1 assert a0 == b && ($idx == len(values) - 1 ==> a1 == upstream.Name) && ($idx < len(values) - 1 ==> a1 == consts.OutboundLogicalOr.String())
+//@   at call upstreamToId#1 assert value == values[$idx]
+//@   at call builtin:append#1 assert a0 == b.rules && a1[0].Type == consts.MatchType_QType && a1[0].Value == value && a1[0].Not == f.Not
+//@   at call builtin:append#1 assert 0 <= upstreamId && upstreamId < 256 ==> a1[0].Upstream == upstreamId
+//@   loop 1
+//@     exit $idx == len(values)
+
+// fallback: the last slot; must/mark are refused; the slot carries the fallback's upstream
+//@ func (*RequestMatcherBuilder).addFallback
+//@   requires b != nil
+//@   anchorsonly
+//@   nonilcheck
+//@   dyncalls noeffect
+//@   modifies *
+//@   at call ParseFunctionOrString#1 assert a0 == fallbackOutbound
+//@   at call ParseOutbound#1 assert a0 == fallbackFunc
+//@   at call upstreamToId#1 assert a1 == upstream.Name && !upstream.Must && upstream.Mark == 0
+//@   at call builtin:append#1 assert a0 == b.rules && a1[0].Type == consts.MatchType_Fallback && !a1[0].Not
+//@   at call builtin:append#1 assert 0 <= upstreamId && upstreamId < 256 ==> a1[0].Upstream == upstreamId
+
+// Build: every registered domain set goes to the domain matcher under its own rule index and key kind, the
+// program must end with the fallback slot, and the matcher evaluates exactly the slots that were lowered.
+//@ func (*RequestMatcherBuilder).Build
+//@   requires b != nil
+//@   anchorsonly
+//@   nonilcheck
+//@   dyncalls noeffect
+//@   modifies *
+//@   at call AddSet#1 assert a1 == $range[$idx].RuleIndex && a2 == $range[$idx].Domains && a3 == $range[$idx].Key
+//@   at return 3 assert b.rules[len(b.rules)-1].Type == consts.MatchType_Fallback && result1 == nil
+//@   loop 1
+//@     entry $range == b.simulatedDomainSet
+//@     exit $idx == len($range)
+
+// Response-side lowering, same shapes as the request side.
+//@ func (*ResponseMatcherBuilder).addQName
+//@   requires b != nil && f != nil && upstream != nil
+//@   anchorsonly
+//@   dyncalls noeffect
+//@   modifies *
+//@   at call builtin:append#1 assert a0 == b.simulatedDomainSet && a1[0].RuleIndex == len(b.rules) && a1[0].Key == key && a1[0].Domains == values
+//@   at call upstreamToId#1 assert a1 == upstream.Name
+//@   at call builtin:append#2 assert a0 == b.rules && a1[0].Type == consts.MatchType_DomainSet
+//@   at call builtin:append#2 assert a1[0].Not == f.Not
+//@   at call builtin:append#2 assert 0 <= upstreamId && upstreamId < 256 ==> a1[0].Upstream == upstreamId
+//@   ensures err == nil ==> calls("builtin:append") == 2
+//@ func (*ResponseMatcherBuilder).addQType
+//@   requires b != nil && f != nil && upstream != nil
+//@   anchorsonly
+//@   dyncalls noeffect
+//@   modifies *
+//@   at call upstreamToId#1 assert a0 == b && value == values[$idx] && ($idx == len(values) - 1 ==> a1 == upstream.Name) && ($idx < len(values) - 1 ==> a1 == consts.OutboundLogicalOr.String())
+//@   at call builtin:append#1 assert a0 == b.rules && a1[0].Type == consts.MatchType_QType && a1[0].Value == value && a1[0].Not == f.Not
+//@   at call builtin:append#1 assert 0 <= upstreamId && upstreamId < 256 ==> a1[0].Upstream == upstreamId
+//@   loop 1
+//@     exit $idx == len(values)
+// upstream condition: slot k tests the answering upstream named by value k (resolved through the same
+// name table) and is chained like the others
+//@ func (*ResponseMatcherBuilder).addUpstream
+//@   requires b != nil && f != nil && upstream != nil
+//@   anchorsonly
+//@   dyncalls noeffect
+//@   modifies *
+//@   at call upstreamToId#1 assert a0 == b && value == values[$idx] && ($idx == len(values) - 1 ==> a1 == upstream.Name) && ($idx < len(values) - 1 ==> a1 == consts.OutboundLogicalOr.String())
+//@   at call upstreamToId#2 assert a0 == b && a1 == value
+//@   at call builtin:append#1 assert a0 == b.rules && a1[0].Type == consts.MatchType_Upstream && a1[0].Not == f.Not
+//@   at call builtin:append#1 assert 0 <= lastUpstreamId && lastUpstreamId < 65536 ==> a1[0].Value == lastUpstreamId
+//@   at call builtin:append#1 assert 0 <= upstreamId && upstreamId < 256 ==> a1[0].Upstream == upstreamId
+//@   loop 1
+//@     exit $idx == len(values)
+// ip condition: the slot's value is the position at which the address set built from exactly these prefixes
+// is stored
+//@ func (*ResponseMatcherBuilder).addIp
+//@   requires b != nil && f != nil && upstream != nil
+//@   anchorsonly
+//@   dyncalls noeffect
+//@   modifies *
+//@   at call upstreamToId#1 assert a1 == upstream.Name
+//@   at call NewTrieFromPrefixes#1 assert a0 == cidrs && rule.Type == consts.MatchType_IpSet && rule.Not == f.Not && (len(b.ipSet) < 65536 ==> rule.Value == len(b.ipSet))
+//@   at call NewTrieFromPrefixes#1 assert 0 <= upstreamId && upstreamId < 256 ==> rule.Upstream == upstreamId
+//@   at call builtin:append#1 assert a0 == b.ipSet && a1[0] == t
+//@   at call builtin:append#2 assert a0 == b.rules && a1[0].Type == rule.Type && a1[0].Not == rule.Not && a1[0].Value == rule.Value && a1[0].Upstream == rule.Upstream
+//@   ensures err == nil ==> calls("builtin:append") == 2
+//@ func (*ResponseMatcherBuilder).addFallback
+//@   requires b != nil
+//@   anchorsonly
+//@   nonilcheck
+//@   dyncalls noeffect
+//@   modifies *
+//@   at call ParseFunctionOrString#1 assert a0 == fallbackOutbound
+//@   at call ParseOutbound#1 assert a0 == fallbackFunc
+//@   at call upstreamToId#1 assert a1 == upstream.Name && !upstream.Must && upstream.Mark == 0
+//@   at call builtin:append#1 assert a0 == b.rules && a1[0].Type == consts.MatchType_Fallback && !a1[0].Not
+//@   at call builtin:append#1 assert 0 <= upstreamId && upstreamId < 256 ==> a1[0].Upstream == upstreamId
+//@ func (*ResponseMatcherBuilder).Build
+//@   requires b != nil
+//@   anchorsonly
+//@   nonilcheck
+//@   dyncalls noeffect
+//@   modifies *
+//@   at call AddSet#1 assert a1 == $range[$idx].RuleIndex && a2 == $range[$idx].Domains && a3 == $range[$idx].Key
+//@   loop 1
+//@     entry $range == b.simulatedDomainSet
+//@     exit $idx == len($range)
